@@ -153,3 +153,70 @@ pub fn wire2(args: &[&str]) -> Option<Vec<String>> {
     let data = server.join().ok()?;
     Some(vec![hex(&data)])
 }
+
+
+/// `bigwire <kind s|a> <MiB> <delay ms>`: a message bigger than the socket buffers to a sink that starts reading late:
+/// every octet must arrive (a partial write must be continued), then the end-of-data marker
+pub fn bigwire(args: &[&str]) -> Option<Vec<String>> {
+    use sha2::{Digest, Sha256};
+    let kind = *args.first()?;
+    let mib: usize = args.get(1)?.parse().ok()?;
+    let delay: u64 = args.get(2)?.parse().ok()?;
+    let msg: Vec<u8> = b"0123456789abcdef0123456789abcdef0123456789abcdef0123456789abcd\r\n".iter().cycle().take(mib << 20).copied().collect();
+    let mut expected = Sha256::new();
+    expected.update(&msg);
+    // the client always terminates with CRLF "." CRLF (the receiver reconstructs message + CRLF, see the C03 model)
+    expected.update(b"\r\n.\r\n");
+    let expected = expected.finalize();
+    let expected_len = msg.len() + 5;
+    let listener = TcpListener::bind("127.0.0.1:0").ok()?;
+    let port = listener.local_addr().ok()?.port();
+    let server = std::thread::spawn(move || {
+        use std::io::Write;
+        let (mut s, _) = listener.accept().unwrap();
+        s.write_all(b"220 sink\r\n250 sink\r\n250 queued\r\n").unwrap();
+        let mut got = Vec::new();
+        let mut byte = [0u8; 1];
+        while !got.ends_with(b"\r\n") {
+            if s.read(&mut byte).unwrap() == 0 {
+                return (0usize, Vec::new());
+            }
+            got.push(byte[0]);
+        }
+        std::thread::sleep(std::time::Duration::from_millis(delay));
+        let mut h = Sha256::new();
+        let mut n = 0usize;
+        let mut buf = vec![0u8; 1 << 16];
+        loop {
+            match s.read(&mut buf) {
+                Ok(0) | Err(_) => break,
+                Ok(k) => {
+                    n += k;
+                    h.update(&buf[..k]);
+                }
+            }
+        }
+        (n, h.finalize().to_vec())
+    });
+    let hello = lettre::transport::smtp::extension::ClientId::Domain("h".into());
+    let ok = match kind {
+        "s" => {
+            let mut c = lettre::transport::smtp::client::SmtpConnection::connect(("127.0.0.1", port), Some(std::time::Duration::from_secs(20)), &hello, None, None).ok()?;
+            let r = c.message(&msg).is_ok();
+            drop(c);
+            r
+        }
+        "a" => {
+            let rt = tokio::runtime::Builder::new_current_thread().enable_all().build().ok()?;
+            rt.block_on(async {
+                let mut c = lettre::transport::smtp::client::AsyncSmtpConnection::connect_tokio1(("127.0.0.1", port), Some(std::time::Duration::from_secs(20)), &hello, None, None).await.ok()?;
+                let r = c.message(&msg).await.is_ok();
+                drop(c);
+                Some(r)
+            })?
+        }
+        _ => return None,
+    };
+    let (n, digest) = server.join().ok()?;
+    Some(vec![format!("{}:{}:{}:{}", ok as u8, n, expected_len, (digest == expected.to_vec()) as u8)])
+}
